@@ -256,6 +256,12 @@ func read[EntityT entity.Interface](def Definition, wrapper func(e *Entity) Enti
 		return *new(EntityT), fmt.Errorf("the ref name doesn't match the entity id")
 	}
 
+	// Whatever is stored could have been written by something else than this code (a remote,
+	// a corrupted repository): the rest of the code relies on the entity being valid.
+	if err := result.Validate(); err != nil {
+		return *new(EntityT), errors.Wrapf(err, "invalid %s", def.Typename)
+	}
+
 	return result, nil
 }
 
